@@ -430,16 +430,38 @@ def gen(repo):
     for i, o in enumerate(ops):
         emit(f"  | Op_{o} => {i}%nat")
     emit("  end.")
-    efv = norm(body_of(fs, r"fn escape_filter_value\(value: &str\) -> Cow<'_, str>\s*\{", "escape_filter_value"))
+    efv_raw = body_of(fs, r"fn escape_filter_value\(value: &str\) -> Cow<'_, str>\s*\{", "escape_filter_value")
+    efv = norm(efv_raw)
     pins["escape_filter_value"] = efv
-    # recognised shapes: (a) original: only '"' -> \\"   (b) repaired: '\' -> \\\\ first, then '"' -> \\"
-    shape_a = norm("""if value.contains('"') { Cow::Owned(value.replace('"', r#"\\\\""#)) } else { Cow::Borrowed(value) }""")
-    if efv == shape_a:
-        emit("Definition filter_escapes_backslash : bool := false.")
-    elif "replace('\\\\'," in efv and "replace('\"'," in efv:
-        emit("Definition filter_escapes_backslash : bool := true.")
-    else:
+    # recognised shape: if value.contains(<guard>) { Cow::Owned(value.replace('c', lit)[.replace('c', lit)]*) } else { Cow::Borrowed(value) }
+    # guard: a char literal or an array of char literals.  The replacements are applied in source order (C11's model
+    # folds over this list); original code: only '"' -> \\" ; repaired code: '\' -> \\\\ first, then '"' -> \\"
+    chr_lit = r"'((?:\\.|[^\\'])+)'"
+    str_lit = r'(?:r#"(.*?)"#|r"([^"]*)"|"((?:\\.|[^"\\])*)")'
+    m = re.fullmatch(
+        r"if\s+value\.contains\((" + chr_lit + r"|\[[^\]]*\])\)\s*\{\s*Cow::Owned\(\s*value((?:\s*\.replace\(" + chr_lit + r",\s*" + str_lit
+        + r"\s*\))+)\s*\)\s*\}\s*else\s*\{\s*Cow::Borrowed\(value\)\s*\}", efv_raw.strip(), re.S)
+    if not m:
         raise TranslatorError("escape_filter_value has an unknown shape")
+    guard = [rust_str(g) for g in re.findall(chr_lit, m.group(1))]
+    repls = []
+    for rm in re.finditer(r"\.replace\(" + chr_lit + r",\s*" + str_lit + r"\s*\)", m.group(3)):
+        ch = rust_str(rm.group(1))
+        if rm.group(2) is not None:
+            lit = rm.group(2).encode()
+        elif rm.group(3) is not None:
+            lit = rm.group(3).encode()
+        else:
+            lit = rust_str(rm.group(4))
+        if len(ch) != 1:
+            raise TranslatorError("escape_filter_value: non-byte char in replace")
+        repls.append((ch[0], lit))
+    if any(len(g) != 1 for g in guard) or not repls:
+        raise TranslatorError("escape_filter_value: guard/replacements not understood")
+    emit("Definition filter_value_guard : list N := " + coq_bytes([g[0] for g in guard]) + ".")
+    emit("Definition filter_value_replacements : list (N * bytes) := ["
+         + "; ".join(f"({c}, {coq_bytes(l)})" for c, l in repls) + "].")
+    emit(f"Definition filter_escapes_backslash : bool := {'true' if any(c == 92 for c, _ in repls) else 'false'}.")
 
     # ------------------------------------------------------------ song.rs
     ss = strip_comments(read(repo, "mpd_client/src/responses/song.rs"))
